@@ -9,6 +9,7 @@ import (
 	"bufio"
 	"context"
 	"encoding/json"
+	"errors"
 	"fmt"
 	"io"
 	"net/http"
@@ -423,4 +424,74 @@ func trimStack(s string) string {
 		return s[:2500]
 	}
 	return s
+}
+
+// ErrNames: does the error identify `name`? Either a value on the error chain has a string field
+// Parameter (or Property / Field) equal to the name, or the name occurs in the message as a token of
+// its own - not as part of a longer word and not inside a path template's braces ("{name}").
+func ErrNames(err error, name string) bool {
+	if err == nil || name == "" {
+		return false
+	}
+	for e := err; e != nil; e = errors.Unwrap(e) {
+		v := reflect.ValueOf(e)
+		for v.Kind() == reflect.Ptr && !v.IsNil() {
+			v = v.Elem()
+		}
+		if v.Kind() == reflect.Struct {
+			for _, fn := range []string{"Parameter", "Property", "Field"} {
+				if f := v.FieldByName(fn); f.IsValid() && f.Kind() == reflect.String && strings.EqualFold(f.String(), name) {
+					return true
+				}
+			}
+		}
+	}
+	msg := strings.ToLower(err.Error())
+	n := strings.ToLower(name)
+	isWord := func(b byte) bool {
+		return b == '_' || b >= '0' && b <= '9' || b >= 'a' && b <= 'z' || b >= 0x80
+	}
+	for from := 0; ; {
+		i := strings.Index(msg[from:], n)
+		if i < 0 {
+			return false
+		}
+		i += from
+		j := i + len(n)
+		leftOK := i == 0 || !isWord(msg[i-1]) && msg[i-1] != '{'
+		rightOK := j == len(msg) || !isWord(msg[j]) && msg[j] != '}'
+		// a name that itself starts/ends with a non-word byte needs no boundary on that side
+		if !isWord(n[0]) {
+			leftOK = true
+		}
+		if !isWord(n[len(n)-1]) {
+			rightOK = true
+		}
+		if leftOK && rightOK {
+			return true
+		}
+		from = i + 1
+	}
+}
+
+// InstallAcceptAll sets every Security* authenticator field of the API to one that accepts any
+// credential and records the token it was given (field name -> tokens seen, in order).
+func (a *API) InstallAcceptAll(seen map[string][]string) {
+	v := a.Ptr.Elem()
+	t := v.Type()
+	for i := 0; i < t.NumField(); i++ {
+		f := t.Field(i)
+		if !strings.HasPrefix(f.Name, "Security") || !f.IsExported() {
+			continue
+		}
+		name := f.Name
+		fn := func(r *http.Request, token string) (*http.Request, bool) {
+			seen[name] = append(seen[name], token)
+			return r, true
+		}
+		fv := reflect.ValueOf(fn)
+		if fv.Type().ConvertibleTo(f.Type) {
+			v.Field(i).Set(fv.Convert(f.Type))
+		}
+	}
 }
